@@ -171,8 +171,8 @@ def loans(F, R):
     un = rel.calls(r'Sender::<.*>::untrack_chunk$')
     R.exact('deallocate_bucket sites in release_chunk', len(de), 1)
     for d in de:
-        conds = [sym_nstr(sym(rel, rel.blocks[b]['t'][1])) for (b, tgt) in lib.guard_switches(rel, d)]
-        ok = any(re.search(r'\(1 == Sender::untrack_chunk\(self, offset\)\)|\(Sender::untrack_chunk\(self, offset\) == 1\)', c) for c in conds)
+        conds = lib.path_conds(rel, d, F)
+        ok = any(re.search(r'^\(Sender::untrack_chunk\(self, offset\) == 1\)$', c) for c in conds)
         R.ob('ONLY-UNDER', 'ONLY-UNDER::%s::deallocate-under-last-reference' % fnkey(rel), ok, 'deallocate_bucket guarded by %s; required untrack_chunk(offset) == 1 (previous count one => now zero)' % conds, d.where, rel)
         R.ob('FLOW', 'FLOW::%s::deallocates-the-released-offset' % fnkey(rel), sym_nstr(sym(rel, d.args[1])) == 'offset', 'deallocate_bucket(%s)' % sym_nstr(sym(rel, d.args[1])), d.where, rel)
     callers = set(core.strip_generics(s.fn.id) for s in F.callers_of(r'segment_state::SegmentState::release_chunk$'))
